@@ -279,6 +279,54 @@ def early_worker(route_back: bool, n_early: int, e_before: int) -> Part:
     return part
 
 
+def raising_worker(kind: str, e: int) -> Part:
+    """A consumer that raises for every frame passed up: each expected frame is still acknowledged with its own counter, passed up
+    once, and the counter advances (an acknowledgement sent only after the consumer has returned would be skipped)."""
+    import logging
+
+    logging.disable(logging.CRITICAL)
+    part = Part()
+    w = reach(kind, e)
+    try:
+        seen: list[bytes] = []
+
+        def consumer(raw: Any) -> None:
+            seen.append(raw)
+            raise RuntimeError("consumer bug")
+
+        if kind == "mgmt":
+            w.dm.cemi_received_callback = consumer
+        else:
+            w.tunnel.cemi_received_callback = consumer
+        ack_type = DeviceConfigurationAck if kind == "mgmt" else TunnellingAck
+        for step, c in enumerate((e, e, (e + 1) % 256, (e + 3) % 256, (e + 2) % 256)):
+            expected = w.key()[0]
+            n_log, n_seen = len(w.gw.log), len(seen)
+            try:
+                w.feed(c, payload=c)
+            except Exception:  # noqa: BLE001  (where the consumer's exception ends up is C22's subject)
+                pass
+            w.loop.settle()
+            acks = [b.sequence_counter for _, b in w.gw.log[n_log:] if isinstance(b, ack_type)]
+            up = len(seen) - n_seen
+            want_ack = [c] if c in (expected, (expected - 1) % 256) else []
+            want_up = 1 if c == expected else 0
+            part.evaluations += 1
+            part.transitions += 1
+            part.nontrivial += 1
+            case = {"kind": kind, "expected": e, "raising_consumer": True}
+            if acks != want_ack:
+                part.viol(f"{kind}:ack-count:raising-consumer", f"expected={expected} received={c} with a consumer that raises: acks {acks}, reference {want_ack}", case)
+            if up != want_up:
+                part.viol(f"{kind}:passed-up:raising-consumer", f"expected={expected} received={c} with a consumer that raises: passed up {up} times, reference {want_up}", case)
+            want_next = (expected + 1) % 256 if c == expected else expected
+            if w.key()[0] != want_next:
+                part.viol(f"{kind}:counter-state:raising-consumer", f"expected={expected} received={c}: next expected {w.key()[0]}, reference {want_next}", case)
+    finally:
+        w.close()
+    return part
+
+
 def run(ctx: Ctx) -> None:
     all_e = list(range(256))
     fresh = set(all_e) if ctx.thorough else {0, 1, 2, 127, 128, 254, 255, ctx.seed_byte()}
@@ -286,13 +334,14 @@ def run(ctx: Ctx) -> None:
         "explicit-state search of the real UDPTunnel._tunnelling_request_received and DeviceManagement._device_configuration_request_received: "
         "every state (expected counter 0..255 x reconnect-timer pending) is reached by a real history from connect(); from each, every counter "
         "0..255 (and a foreign channel id) is fed and the acks sent / frames passed up / next state are compared with the three-way verdict of "
-        "Tunnelling 2.6.1; plus reconnect => counter 0. non-trivial = transitions with counter in {e-1,e,e+1} or foreign channel"
+        "Tunnelling 2.6.1; plus reconnect => counter 0; plus, from 5 states each, a consumer that raises for every frame passed up (acknowledgement, single delivery and counter must not depend on the consumer returning). non-trivial = transitions with counter in {e-1,e,e+1} or foreign channel"
     )
     ctx.bounds = {"expected_values": 256, "fresh_history_per_transition_for_e": sorted(fresh), "counters_fed": 256}
     ctx.assumptions = ["the canonical state is (expected counter, timer pending): IncomingSequenceCounter.evaluate reads nothing else; drift of that key during a sweep is a harness error"]
     args = [(k, e, e in fresh and k != "tunnel-rb") for k in ("tunnel", "tunnel-rb", "mgmt") for e in all_e]
     ctx.pmap(worker, args)
     ctx.pmap(early_worker, [(rb, n, e) for rb in (False, True) for n in (1, 2, 3) for e in (0, 1, 3, 255)])
+    ctx.pmap(raising_worker, [(k, e) for k in ("tunnel", "mgmt") for e in (0, 1, 2, 254, 255)])
     ctx.total.states = len(ctx.total.extra.pop("state_set", ()))
 
 
@@ -304,5 +353,5 @@ def replay(case: Any) -> list[tuple[str, str]]:
         p = early_worker(case["route_back"], case["n_early"], case["e_before"])
         return [(s, v[1]) for s, v in p.viols.items()]
     kind, e = case["kind"], case["expected"]
-    p = worker(kind, e, True)
+    p = raising_worker(kind, e) if case.get("raising_consumer") else worker(kind, e, True)
     return [(s, v[1]) for s, v in p.viols.items()]
